@@ -452,6 +452,19 @@ def evaluate(ck: Check, cases, res, label="cases"):
     """monitors + Coq correspondence on transcripts; returns (n_mismatch, n_monitor_violations)"""
     nviol = 0
     coq_items, srv_items = [], []
+    # freshness: logins that let the client choose its own nonce (uuid4 not pinned by the harness) never share one -
+    # with a repeated nonce a recorded server-first / server-final pair could be replayed to a later login
+    seen_nonce = {}
+    for c, t in zip(cases, res):
+        if c.get("uuid_int") is None and "client_nonce" in t:
+            if t["client_nonce"] in seen_nonce:
+                nviol += 1
+                ck.violation(f"nonce_fresh: two logins used the same client nonce {t['client_nonce']!r}: the server messages "
+                             f"recorded from one could be replayed to the other",
+                             {"case": case_public(c), "other_case": case_public(seen_nonce[t['client_nonce']]),
+                              "clause": "nonce_fresh"}, signature="nonce_fresh")
+                break
+            seen_nonce[t["client_nonce"]] = c
     for idx, (c, t) in enumerate(zip(cases, res)):
         for hv, e in (t.get("e2e") or {}).items():
             if "driver_error" in e:
